@@ -1,3 +1,10 @@
 import WrglModel.Props.C03
 #print axioms Wrgl.C03_ingest_inv
 #print axioms Wrgl.C03_offsets
+#print axioms Wrgl.C03_fact_indexTableComparesSums
+#print axioms Wrgl.C03_fact_indexTableEntryIsFirstRowKey
+#print axioms Wrgl.C03_receive_index_clauses
+#print axioms Wrgl.C03_receive_inv
+#print axioms Wrgl.C03_receive_order_is_the_senders
+#print axioms Wrgl.C03_diagnose_complete
+#print axioms Wrgl.C03_ingest_diagnosis_clean
